@@ -7,6 +7,7 @@ import InovesaModel.Model.PhaseSpace
 import InovesaModel.Model.ElectricField
 import InovesaModel.Model.Options
 import InovesaModel.Model.MainProgram
+import InovesaModel.Model.DynamicRF
 open Inovesa
 namespace Driver
 
@@ -20,6 +21,7 @@ structure Case where
   parts : Array Float32 := #[]
   aux : Array Float32 := #[]
   aux2 : Array Float32 := #[]
+  aux3 : Array Float32 := #[]
   words : Array String := #[]
   argv : List String := []
   cfg : List String := []
@@ -400,6 +402,51 @@ def runMainCase (c : Case) : List String :=
    "ints lens csr " ++ toString f.csr.length ++ " wake " ++ toString f.wake.length ++ " tracks " ++
      toString f.tracks.length ++ " rfk " ++ toString f.rfk.length ++ " padded " ++ toString f.padded.length]
 
+/-- dynrf <id> <n> <it> <nb> lin <steps> ; extra (see harness) ; aux = tan(angle) bl2phase syncphase
+    modtimedelta ; aux2 = sin(modtimedelta*i) ; aux3 = entries in order of use (needed with noise) -/
+def runDynRF (c : Case) : List String :=
+  let n := natArg c 2
+  let it := natArg c 3
+  let nb := natArg c 4
+  let lin := c.head.getD 5 "lin" == "lin"
+  let steps := natArg c 6
+  if !lin then ["case " ++ c.id, "skip sinusoidal-not-modelled"] else
+  let e := fun i => c.extra.getD i f32zero
+  let ax0 : Ruler Float32 := { steps := n, min := e 0, max := e 1 }
+  let tanv := c.aux.getD 0 f32zero
+  let bl2 := c.aux.getD 1 f32zero
+  let sync := c.aux.getD 2 f32zero
+  let one : Float32 := Float32.ofBits 0x3f800000
+  let noisy := (e 11) != f32zero || (e 12) != f32zero
+  let queue : List (Float32 × Float32) :=
+    if noisy then (List.range (c.aux3.size / 2)).map fun k => (c.aux3.getD (2 * k) f32zero, c.aux3.getD (2 * k + 1) f32zero)
+    else calcModulation sync f32zero f32zero (e 13) (fun i => c.aux2.getD i f32zero) (fun _ => (f32zero, f32zero)) steps
+  let offsOf (ph am : Float32) : Array Float32 :=
+    ((List.range (n * nb)).map fun r => if r < n then rfOffsetLinear tanv ax0.zerobin bl2 ax0.delta sync ph am r
+                                        else f32zero).toArray
+  let applyWith (off : Array Float32) : List String :=
+    match kickOutputs "y" n it nb 0 off c.data with
+    | [_, outl] => [hexLine "off" (off.toList.take n), outl]
+    | l => l
+  let (_, lines) := c.words.foldl (fun (acc : DynRF Float32 × List String) op =>
+    let (d, out) := acc
+    match op with
+    | "a" =>
+      match d.apply with
+      | some (en, d') => (d', out ++ ["ops a"] ++ applyWith (offsOf en.1 en.2))
+      | none => (d, out ++ ["error queue-exhausted"])
+    | "s" => (d, out ++ ["ops s"] ++ applyWith (offsOf sync one))
+    | "f" =>
+      let (p, d') := d.flush
+      (d', out ++ ["ops f", hexLine "vals" (p.flatMap fun x => [x.1, x.2])])
+    | _ => (d, out)) ({ next := queue, past := [] }, [])
+  -- final flush: the harness flushes once more at the end
+  let used := (c.words.toList.filter (· == "a")).length
+  let flushedBefore : Nat := (c.words.toList.foldl (fun (st : Nat × Nat) op =>
+      if op == "a" then (st.1 + 1, st.2) else if op == "f" then (st.1, st.1) else st) (0, 0)).2
+  let rest := (queue.take used).drop flushedBefore
+  ["case " ++ c.id, "ints 0"] ++ lines ++ ["ops f", hexLine "vals" (rest.flatMap fun x => [x.1, x.2])]
+
 def dispatch (c : Case) : List String :=
   match c.kind with
   | "kick" => runKick c
@@ -412,6 +459,7 @@ def dispatch (c : Case) : List String :=
   | "opts" => runOpts c
   | "fpiter" => runFPIter c
   | "main" => runMainCase c
+  | "dynrf" => runDynRF c
   | "drift" => runDrift c
   | k => ["case " ++ c.id, "error unknown-kind " ++ k]
 
